@@ -223,7 +223,7 @@ def compare(case, impl_lines, model_lines, classes=CLASSES, want=("oracle", "str
                                              "tol": float(t), "quant_lossless_expected": qfit if quant else None})
                 if "struct" in want and (closed or c in "PR"):
                     for nm, r, m, q in (("FullScore", ri.F, rm.F, rm.qF), ("FullScoreForgotState", ri.G, rm.G, rm.qG)):
-                        mi = q if c in "PR" else m["indep"]     # probing: model with the unigram sign-bit quirk
+                        mi = m["indep"]     # (the probing unigram sign-bit quirk `q` is repaired by repo patch 60)
                         if r["len"] != m["len"] or r["indep"] != mi or \
                                 (not quant or qfit) and not state_equal(r["out"], m["out"]) or \
                                 (quant and not qfit) and (r["out"][0] != m["out"][0] or r["out"][1] != m["out"][1]):
@@ -242,7 +242,7 @@ def compare(case, impl_lines, model_lines, classes=CLASSES, want=("oracle", "str
                                  (rm.qF != rm.F["indep"] or rm.qG != rm.G["indep"]))
                         problems.append({"kind": "spec-indep-left", "cls": c, "query": qi, "pos": pos,
                                          "impl": [ri.F["indep"], ri.G["indep"]], "spec": [rm.ilF, rm.ilG],
-                                         "known_key": "probing-unigram-plus-zero-independent-left" if quirk else None})
+                                         "explained_by_unigram_sign_quirk": quirk, "known_key": None})
     return problems, stats
 
 
